@@ -15,7 +15,7 @@ RULE = ("structured generator: {split_curve, split_surface_u, split_surface_v, d
         "implementation returned pieces and the shape has at least one interior knot or the split parameter is interior; distinct by case hash")
 ASSUMPTIONS = ["floating point rounding below 1e-9 (model vs implementation) / 1e-8 (evaluated points of pieces vs original) is not observable",
                "knot vectors are clamped with interior multiplicities <= degree; split parameters lie in the closed domain",
-               "split parameters are at least 1/128 away from every knot they do not coincide with (multiplicity tolerance 1e-7 is not probed)",
+               "split parameters are at least 1/128 away from every knot they do not coincide with, except the split_curve stratum nearknot (7%: parameters 2^-26..2^-30 away from a knot), where the multiplicity tolerance 10e-8 merges parameter and knot: decided by the exact oracle only and recorded as known finding split-parameter-within-tolerance-of-a-knot",
                "the '{:.18f}' text round trip of knotvector.normalize is the identity at the comparison tolerance"]
 THEOREM_NOTES = "see coq/Props/C07.v"
 LEVEL_TEXT = ("Coq theorems over the reals about the executable Gallina model of operations.split_curve / split_surface_u / split_surface_v / "
@@ -132,6 +132,16 @@ class SplitCurve(Family):
         for i in range(n):
             sh = gen_obj(rng, 1, i, 4)
             u, cls = pick_split(rng, sh["kv"][0], sh["deg"][0])
+            if rng.random() < 0.07:
+                # a parameter closer than the multiplicity tolerance 10e-8 to a knot it is not equal to (known finding
+                # split-parameter-within-tolerance-of-a-knot)
+                kv, p = sh["kv"][0], sh["deg"][0]
+                lo, hi = kv[p], kv[len(kv) - p - 1]
+                k = rng.choice(sorted(set(x for x in kv if lo <= x <= hi)))
+                eps = 2.0 ** -rng.choice([26, 27, 28, 30]) * max(1.0, abs(hi))
+                sg = 1.0 if k == lo else (-1.0 if k == hi else rng.choice([-1.0, 1.0]))
+                if lo < k + sg * eps < hi and (k + sg * eps) not in kv:
+                    u, cls = k + sg * eps, "nearknot"
             out.append({"shape": sh, "param": u, "cls": cls})
         return out
 
@@ -146,7 +156,9 @@ class SplitCurve(Family):
         return r
 
     def coq(self, c, out):
-        if "crash" in out:
+        if "crash" in out or c.get("cls") == "nearknot":
+            # nearknot: outside the theorems' hypothesis par_ok (the tolerance confuses the parameter with a knot); the
+            # statement of the property is decided there by the exact oracle alone (known finding)
             return None
         exp = "(Ok %s)" % S.g_snaps(out["ok"]["pieces"]) if "ok" in out else "Rejected"
         return "(cmpC2 (split_curve Qops %s %s %s) %s)" % (G.Q(TOL8), S.g_geom(out["before"]), G.Q(c["param"]), exp)
@@ -157,7 +169,7 @@ class SplitCurve(Family):
     def oracle(self, c, out):
         if "before" in out and not out["unchanged"]:
             return "split-input: split_curve modified its input"
-        if c["cls"] in ("start", "end"):
+        if c.get("cls") in ("start", "end"):
             return None if "rej" in out else "split-end: splitting at the domain %s was not rejected: %s" % (c["cls"], str(out)[:200])
         if "ok" not in out:
             return "split: splitting at the interior parameter %r failed: %s" % (c["param"], out)
@@ -230,7 +242,7 @@ class SplitSurface(Family):
         what = "split_%s" % "uv"[c["dir"]]
         if "before" in out and not out["unchanged"]:
             return "%s-input: the input surface was modified" % what
-        if c["cls"] in ("start", "end"):
+        if c.get("cls") in ("start", "end"):
             return None if "rej" in out else "%s-end: splitting at the domain %s was not rejected: %s" % (what, c["cls"], str(out)[:200])
         if "ok" not in out:
             return "%s: splitting at the interior parameter %r failed: %s" % (what, c["param"], out)
